@@ -22,7 +22,7 @@ def _step(args):
     return dict(raised=True, raised_text="step process failed rc=%s: %s" % (p.returncode, p.stderr.decode(errors="replace")[-400:]), op=args["op"])
 
 
-INITIAL_STATE = dict(e=1, v=1, iter=3, svc=0, ext=1, iter2=0)
+INITIAL_STATE = dict(e=1, v=1, iter=3, svc=0, ext=1, iter2=0, order=0)
 
 
 def make_base(pyc, statef=None):
@@ -58,18 +58,18 @@ def run_sequence(sc):
             err = make_base(pyc, statef)
             if err:
                 return dict(meta=dict(tid=sc["tid"], sid=sc["sid"]), ev=[], setup_error=err)
-        ver = 1
-        used = 1
-        versions = {json.dumps(state, sort_keys=True): 1}
+        def content_key(st):
+            return json.dumps(dict(st, order=st["order"] % 2), sort_keys=True)
+        versions = {content_key(state): 1}      # content id of every definition seen (the same strings = the same content)
         for op in sc["ops"]:
             rec = dict(e="op", op=op, is_edit=op.startswith("edit_"), is_load=op in ("undill_auto", "undill_noauto"), autogen=(op == "undill_auto"),
                        raised=False, used_ver=0, reported_stale=False, values_ok=True)
             if op.startswith("edit_"):
-                key = {"edit_e": "e", "edit_v": "v", "edit_iter": "iter", "edit_svc": "svc", "edit_ext": "ext", "edit_iter2": "iter2"}[op]
+                key = {"edit_e": "e", "edit_v": "v", "edit_iter": "iter", "edit_svc": "svc", "edit_ext": "ext", "edit_iter2": "iter2", "edit_order": "order"}[op]
                 state[key] += 1
                 json.dump(state, open(statef, "w"))
-                ver += 1
-                versions[json.dumps(state, sort_keys=True)] = ver
+                versions.setdefault(content_key(state), len(versions) + 1)
+                rec["content"] = versions[content_key(state)]
             elif op == "corrupt":
                 f = os.path.join(pyc, "VProbe.py")
                 if os.path.exists(f):
@@ -89,7 +89,7 @@ def run_sequence(sc):
                         ex = codegen_step.expected_values(json.loads(sjson))
                         if abs(r["y0"] - ex["y0"]) < 1e-9 and abs(r["gy"] - ex["gy_at_init"]) < 1e-9 and abs(r["ksv"] - ex["ksv"]) < 1e-9 \
                                 and abs(r["z0"] - ex["z0"]) < 1e-3 and abs(r["p0"] - ex["p0"]) < 1e-3 and abs(r["q0"] - ex["q0"]) < 1e-3 \
-                                and abs(r["ae"] - ex["ae"]) < 1e-9:       # iterative initialisation stops at TDS.config.tol
+                                and abs(r["ae"] - ex["ae"]) < 1e-9 and abs(r["gw1"] - ex["gw1"]) < 1e-9 and abs(r["gw2"] - ex["gw2"]) < 1e-9:       # iterative initialisation stops at TDS.config.tol
                             match = vnum
                     rec["used_ver"] = match
                     rec["values_ok"] = bool(match != 0)
@@ -105,43 +105,69 @@ def run_sequence(sc):
 
 
 def determinism(sc):
-    """Generate code twice for a set of shipped models into two directories: files identical, md5 constant = get_md5()."""
+    """Generate code twice for a set of shipped models into two directories, with different hash seeds and once serially,
+    once through the process pool: the recorded checksum must be the model's; files that are not byte-identical are compared
+    functionally (both must pass the equation-level comparison with the declared strings on the same lattice)."""
     d = scratch_dir("cgd")
     try:
         outs = []
         for k in (1, 2):
             p = os.path.join(d, "p%d" % k)
-            os.makedirs(p)
+            shutil.copytree(pycode_path(), p, ignore=shutil.ignore_patterns("__pycache__", "*.lock"))
+            for m in sc["models"]:
+                f = os.path.join(p, m + ".py")
+                if os.path.exists(f):
+                    os.remove(f)
             code = ("import sys, json\nsys.path.insert(0, %r)\nimport andes\nandes.config_logger(stream_level=50, file=False)\n"
                     "ss = andes.System(default_config=True, no_undill=True, pycode_path=%r, no_output=True)\n"
-                    "ss.prepare(quick=True, incremental=False, models=%r, nomp=%r)\n"
-                    "print('MD5 ' + json.dumps({m: ss.models[m].get_md5() for m in %r}))\n" % (REPO, p, sc["models"], bool(k == 1), sc["models"]))
-            r = subprocess.run([PY, "-c", code], stdout=subprocess.PIPE, stderr=subprocess.PIPE, env=clean_env(), timeout=1800)
+                    "ss.prepare(quick=True, incremental=False, models=%r, nomp=%r, ncpu=4)\n"
+                    "print('MD5 ' + json.dumps({m: ss.models[m].get_md5() for m in %r}))\n" % (REPO, p, sc["models"], bool(k == 2), sc["models"]))
+            r = subprocess.run([PY, "-c", code], stdout=subprocess.PIPE, stderr=subprocess.PIPE, env=clean_env({"PYTHONHASHSEED": str(k)}), timeout=3000)
             md5 = {}
             for line in r.stdout.decode(errors="replace").splitlines():
                 if line.startswith("MD5 "):
                     md5 = json.loads(line[4:])
-            outs.append((p, md5, r.returncode))
-        identical = True
+            outs.append((p, md5, r.returncode, r.stderr.decode(errors="replace")[-400:]))
+        if not outs[0][1] or not outs[1][1]:
+            return dict(meta=dict(tid=sc["tid"], sid=sc["sid"]), ev=[], setup_error="generation failed: %s | %s" % (outs[0][3], outs[1][3]))
         md5_ok = True
-        diff = []
+        diff, missing = [], []
         for m in sc["models"]:
             f1, f2 = os.path.join(outs[0][0], m + ".py"), os.path.join(outs[1][0], m + ".py")
             if not (os.path.exists(f1) and os.path.exists(f2)):
-                identical = False
-                diff.append(m + ": missing")
+                missing.append(m)
                 continue
             b1, b2 = open(f1, "rb").read(), open(f2, "rb").read()
             if b1 != b2:
-                identical = False
                 diff.append(m)
-            txt = b1.decode(errors="replace")
-            rec = [ln for ln in txt.splitlines() if ln.startswith("md5 = ")]
-            if not rec or outs[0][1].get(m) is None or outs[0][1][m] not in rec[0]:
-                md5_ok = False
-                diff.append(m + ": md5")
-        return dict(meta=dict(tid=sc["tid"], sid=sc["sid"]), ev=[dict(e="determinism", identical=bool(identical), md5_matches=bool(md5_ok), n=len(sc["models"]))],
-                    diff=diff[:10])
+            for b, o in ((b1, outs[0]), (b2, outs[1])):
+                rec = [ln for ln in b.decode(errors="replace").splitlines() if ln.startswith("md5 = ")]
+                if not rec or o[1].get(m) is None or o[1][m] not in rec[0]:
+                    md5_ok = False
+        functional = True
+        bad_items = []
+        if diff:
+            # not byte-identical: both versions must still compute the declared strings
+            for p, _, _, _ in outs:
+                code = ("import sys, json\nsys.path.insert(0, %r)\nsys.path.insert(0, %r)\nimport vh.common as C\n"
+                        "C.pycode_path = lambda build=True: %r\nfrom vh import eqdrv\n"
+                        "res = eqdrv.task(dict(models=%r, table=json.load(open(%r)), rounds=%d))\n"
+                        "bad = [it['key'] for r in res for it in r['items'] if it['agree'] != it['points'] or it['notes']]\n"
+                        "print('BAD ' + json.dumps(bad))\n" % (REPO, VERIF, p, diff, sc["table_file"], sc["rounds"]))
+                r = subprocess.run([PY, "-c", code], stdout=subprocess.PIPE, stderr=subprocess.PIPE, env=clean_env(), timeout=3000)
+                got = None
+                for line in r.stdout.decode(errors="replace").splitlines():
+                    if line.startswith("BAD "):
+                        got = json.loads(line[4:])
+                if got is None:
+                    return dict(meta=dict(tid=sc["tid"], sid=sc["sid"]), ev=[], setup_error="functional comparison failed: " + r.stderr.decode(errors="replace")[-400:])
+                if got:
+                    functional = False
+                    bad_items += got
+        return dict(meta=dict(tid=sc["tid"], sid=sc["sid"]),
+                    ev=[dict(e="determinism", identical=bool(functional and not missing), md5_matches=bool(md5_ok), n=len(sc["models"]),
+                             byte_identical=bool(not diff))],
+                    diff=diff[:20], missing=missing[:10], bad_items=bad_items[:10])
     finally:
         shutil.rmtree(d, ignore_errors=True)
 
